@@ -32,7 +32,7 @@ ASSUMPTIONS = [
 
 ATTRS = ["no_data_img", "valid_pixels", "no_data_mask", "crs", "transform"]
 DS_VIOLATIONS = (["L:no-im", "R:no-im", "L:all-nan", "R:all-nan", "L:band-not-str", "R:band-not-str", "L:band-partly-str",
-                 "R:band-partly-str", "L:msk-off-grid",
+                 "R:band-partly-str", "L:msk-off-grid", "L:disparity-off-grid", "R:disparity-off-grid",
                   "R:msk-off-grid"] + [f"L:attr-{a}" for a in ATTRS[:3]] + [f"R:attr-{a}" for a in ATTRS[3:]] +
                  ["L:no-disparity", "L:band_disp-names", "L:band_disp-only-min", "L:no-band_disp", "L:min>max", "R:min>max",
                   "R:other-size"])
@@ -79,7 +79,7 @@ def applicable(cls: int, v: str) -> bool:
         return cls == 1
     if what == "msk-off-grid":
         return True
-    if v == "R:min>max":
+    if v in ("R:min>max", "R:disparity-off-grid"):
         return cls in (2, 3)
     return True
 
@@ -110,6 +110,13 @@ def apply_ds(l: xr.Dataset, r: xr.Dataset, v: str):
         ds.attrs.pop(what[5:], None)
     elif what == "no-disparity":
         ds = ds.drop_vars("disparity", errors="ignore")
+    elif what == "disparity-off-grid":
+        # an interval grid that is otherwise well-formed (min <= max, bands min / max) but not on the image's row / column grid
+        if "disparity" in ds and "im" in ds:
+            h, w = ds["im"].shape[-2:]
+            ds = ds.drop_vars("disparity")
+            grid = np.stack([np.full((h + 1, w), -2.0, dtype=np.float32), np.full((h + 1, w), 2.0, dtype=np.float32)])
+            ds["disparity"] = xr.DataArray(grid, dims=["band_disp", "row_d", "col"])
     elif what == "band_disp-names":
         if "disparity" in ds:
             ds = ds.assign_coords(band_disp=["lo", "hi"])
@@ -118,9 +125,9 @@ def apply_ds(l: xr.Dataset, r: xr.Dataset, v: str):
             ds = ds.assign_coords(band_disp=["min", "hi"])
     elif what == "no-band_disp":
         if "disparity" in ds:
-            d = ds["disparity"].data
+            d, dims = ds["disparity"].data, list(ds["disparity"].dims[1:])
             ds = ds.drop_vars("disparity").drop_vars("band_disp", errors="ignore")
-            ds["disparity"] = xr.DataArray(d, dims=["band_d", "row", "col"])
+            ds["disparity"] = xr.DataArray(d, dims=["band_d"] + dims)
     elif what == "min>max":
         if "disparity" in ds:
             d = ds["disparity"].data.copy()
@@ -150,7 +157,7 @@ def judge_ds(ctx: Ctx, cls: int, vs, seed: int = 0):
     for v in vs:
         side, what = v.split(":")
         ds = l if side == "L" else r
-        if what in ("band_disp-names", "band_disp-only-min", "no-band_disp", "min>max") and "disparity" not in ds:
+        if what in ("band_disp-names", "band_disp-only-min", "no-band_disp", "min>max", "disparity-off-grid") and "disparity" not in ds:
             continue
         if what in ("all-nan", "other-size") and "im" not in ds:
             continue
